@@ -2,7 +2,7 @@
 # dup over <= 6 handles, all manager configurations and pool depths) and the udict histories of C10 are run for C01 with only the memory oracles
 # reported: ASan (use after free, double free) and the end-of-case audit (counting umem empty, every manager back to one reference).
 ADD = {
-    "C01": [dict(name="blocks", harness="harness/C03_blockstr.c", repo=LIBUPIPE, engine=MEMFIX, cflags=["-DBLOCKSTR_AS_C01"], share=1.0, case_scale=4.0)],
+    "C01": [dict(name="blocks", harness="harness/C03_blockstr.c", repo=LIBUPIPE, engine=MEMFIX, cflags=["-DBLOCKSTR_AS_C01"], fault_malloc=True, share=1.0, case_scale=4.0)],
 }
 RULE = {
     "C01": "executor 'blocks': the generated block histories of C03 (<= 50 operations over <= 6 block handles incl. dup / splice / split / merge chains, pool depths 0/1/4) with the memory oracles only (ASan, leak audit, manager reference counts); non-trivial as in C03",
